@@ -89,7 +89,7 @@ def groups(tier, seed):
         gs += [f"logpdf:{n}", f"sampler:{n}"]
     gs += [f"closed:{n}" for n in closed_forms()]
     gs += ["norm:flip", "norm:bernoulli", "norm:categorical2", "norm:categorical3", "norm:binomial", "closed:categorical", "closed:geometric",
-           "user:tfp_distribution", "user:distribution"]
+           "user:tfp_distribution", "user:distribution", "user:tfp_distribution_same_name"]
     return gs
 
 
@@ -209,7 +209,25 @@ def sampler(g, name, D, ctor, params, value, tfd):
             g.ok(f"{name}.sample [{tag}]: all randomness derives from the site's own sub-key", bool(bits) and all(
                 keys.derives_from(c[1], sub) and not keys.has_const_key(c[1]) for c in bits))
         else:
-            g.eq(f"{name}.sample [{tag}] == documented TFP sampler of the documented object on the site's own sub-key", T.flat_out[0], ref)
+            r = g.eq(f"{name}.sample [{tag}] == documented TFP sampler of the documented object on the site's own sub-key", T.flat_out[0], ref)
+            if r is not None and r["verdict"] == "inconclusive" and "sat" in str(r.get("detail", "")):
+                # the solver found the two sampler terms different; key-typed inputs cannot be replayed through the numeric
+                # evaluator, so replay concretely: the real seeded sampler against the documented TFP sampler on the same sub-key
+                try:
+                    diffs = []
+                    for kseed in (0, 7, 12345):
+                        k = jax.random.key(kseed)
+                        real = np.asarray(fn(k, *[jnp.asarray(p) for p in ps]))
+                        want = np.asarray(ctor(tfd, *[jnp.asarray(p) for p in ps]).sample(seed=jax.random.split(k)[1], **kw))
+                        if real.shape != want.shape or not np.allclose(real.astype(np.float64), want.astype(np.float64), rtol=1e-5, atol=1e-6):
+                            diffs.append((kseed, real.tolist(), want.tolist()))
+                    if diffs:
+                        r["verdict"] = "violation"
+                        r["replay_kind"] = "structural"
+                        r["detail"] = (f"solver: sampler terms differ; concrete replay on the real code: key {diffs[0][0]}: "
+                                       f"seeded sample {diffs[0][1]} vs documented TFP sampler on the site's sub-key {diffs[0][2]}")
+                except Exception as e:
+                    r["detail"] = str(r.get("detail", "")) + f"; concrete replay failed: {type(e).__name__}: {e}"
         g.ok(f"{name}.sample [{tag}]: documented shape and dtype", tuple(T.closed.out_avals[0].shape) == tuple(ref_closed.out_avals[0].shape)
              and T.closed.out_avals[0].dtype == ref_closed.out_avals[0].dtype,
              f"{T.closed.out_avals[0]} vs {ref_closed.out_avals[0]}")
@@ -289,6 +307,11 @@ def user_wrapped(g, name):
     if name == "tfp_distribution":
         D = tfp_distribution(lambda m, s: tfd.Logistic(loc=m, scale=s), name="Logistic")
         ctor = lambda tfd_, m, s: tfd_.Logistic(loc=m, scale=s)
+    elif name == "tfp_distribution_same_name":
+        # a user distribution that re-uses the NAME of a built-in with another parameterisation (mean, variance):
+        # sampler and density must both be the user's object, not whatever was registered under that name before
+        D = tfp_distribution(lambda m, v: tfd.Normal(loc=m, scale=v * 0.5), name="Normal")
+        ctor = lambda tfd_, m, v: tfd_.Normal(loc=m, scale=v * 0.5)
     else:
         def ks(key, m, s, sample_shape=()):
             return tfd.Gumbel(m, s).sample(seed=key, sample_shape=sample_shape)
